@@ -52,13 +52,16 @@ PROPS = {
                 "c03_push: run = a crafted consistent batch pushed through DZKPUpgradedMaliciousContext::push on the three helpers - segment width {1,2,3,5,8,13,20,32,64,100,128,256,512,768} x records (exactly filling, "
                 "one more/less than, or ragged against 1..40 storage blocks) x 1..3 gates x single validate / validate_record batches of 1..256 x value pattern {random, one of the 512 joint assignments everywhere, "
                 "per-record stripes, all ones, all zeros}; must be accepted by all; in 2/3 of the runs the same batch is re-run with ONE recorded bit (entry x record x position, biased to block boundaries) flipped on one helper "
-                "and must be rejected by at least one helper",
+                "and must be rejected by at least one helper; single-validate runs push the records in a seeded permutation half of the time. "
+                "c03_ba_tamper: the c03_tamper rule over Boolean-array multiplications (select, saturating subtraction on width {3,5,8,16,20,32,64} shares, 1..40 records)",
         "scenarios": [
             {"name": "c03_tamper", "quick": 3000, "thorough": 150000, "offset": 1, "chunk": 40, "run_timeout": 120, "crash_ok": True},
             {"name": "c03_push", "quick": 3000, "thorough": 200000, "offset": 2, "chunk": 100, "run_timeout": 120},
+            {"name": "c03_ba_tamper", "quick": 2000, "thorough": 100000, "offset": 3, "chunk": 40, "run_timeout": 120, "crash_ok": True},
         ],
         "expected_probes": ["tamper_rejected_or_aborted", "site_bit", "site_generate_proof", "site_challenge", "site_diff", "site_p_times_q",
-                            "honest_batch_accepted", "flip_rejected", "flip_entry_0", "flip_entry_6", "flip_in_later_batch", "width_3", "width_512"],
+                            "honest_batch_accepted", "flip_rejected", "flip_entry_0", "flip_entry_6", "flip_in_later_batch", "width_3", "width_512", "pushed_in_permuted_order",
+                            "site_array_multiplication", "site_proof_message", "ba_tamper_select", "ba_tamper_sat_sub"],
         "components_real": ["protocol::context::{dzkp_validator, dzkp_malicious, dzkp_field, batcher}, ipa_prf::{malicious_security, validation_protocol}, basics::mul::dzkp_malicious, boolean_ops, Gateway, in-memory transport"],
     },
     "C06": {
